@@ -88,7 +88,7 @@ def _arm_outcomes(body, prefix):
     return [(prefix, '<complex>', None)]
 
 
-def lexer_table(ctx):
+def lexer_table_syn(ctx):
     def build():
         S = ctx.syn()
         nxt = S.method('src/lexer.rs', 'Tokenizer', 'next', trait='Iterator')
@@ -160,6 +160,132 @@ def lexer_table(ctx):
                             elif p['k'] == 'p_ident':
                                 bump_set.add(p['name'])
         return {'table': table, 'arms': arms, 'extra_bump': bump_set, 'fn': nxt}
+    return _memo(ctx, 'lexer_table_syn', build)
+
+
+LEXNEXT = "<lexer::Tokenizer<'a> as core::iter::traits::iterator::Iterator>::next"
+TOK = "lexer::Tokenizer::<'a>::"
+STD_CHAR_PRED = {'is_alphabetic': str.isalpha, 'is_alphanumeric': str.isalnum, 'is_ascii_digit': lambda c: c in '0123456789',
+                 'is_numeric': str.isnumeric, 'is_ascii_alphabetic': lambda c: c.isascii() and c.isalpha(),
+                 'is_ascii_alphanumeric': lambda c: c.isascii() and c.isalnum(), 'is_whitespace': str.isspace,
+                 'is_ascii_whitespace': lambda c: c in ' \t\n\x0c\r', 'is_ascii_punctuation': lambda c: c.isascii() and not c.isalnum() and not c.isspace() and c.isprintable()}
+
+
+def eval_pure(F, name, argvals, depth=0):
+    """value of a small local function on constant arguments, by constant propagation through its MIR (no forks allowed)"""
+    g = F.fns.get(name)
+    if g is None or depth > 3 or len(g.blocks) > 80 or not all(isinstance(a, tuple) and a[0] in ('int', 'enum') for a in argvals):
+        return None
+    env = {'_%d' % (i + 1): a for i, a in enumerate(argvals)}
+    ps = AbsInt(F, g, env, max_paths=8, decide_call=lambda n, a, t_: char_pred(n, a) or eval_pure(F, n, a, depth + 1)).run()
+    rets = [p.env.get('_0') for p in ps if p.exit == 'return']
+    if len(ps) == 1 and len(rets) == 1 and rets[0] and rets[0][0] in ('int', 'enum'):
+        return rets[0]
+    return None
+
+
+def char_pred(name, argvals):
+    if name.startswith('core::char::methods::<impl char>::') and argvals:
+        a = argvals[0]
+        while isinstance(a, tuple) and a[0] in ('cast',):
+            a = a[1]
+        fn_ = STD_CHAR_PRED.get(name.split('::')[-1])
+        if fn_ and isinstance(a, tuple) and a[0] == 'int':
+            try:
+                return ('int', int(bool(fn_(chr(a[1])))), 'bool')
+            except (ValueError, OverflowError):
+                return None
+    return None
+
+
+def lexer_outcomes(ctx):
+    """what Tokenizer::next does on an input that starts with c1 followed by c2 (or by nothing), for a grid of characters:
+    {(c1, c2): (token | '<skip>' | '<eof>' | '<?>', number of bump() calls, callees)} — the MIR of next() with the first two
+    characters held constant (constant propagation; helpers the lexer may have been split into are spliced in or evaluated)"""
+    def build():
+        F = ctx.facts()
+        fn = F.fn(LEXNEXT)
+        c1s = [chr(i) for i in range(33, 127)] + [' ', '\t', '\n', '\r', '\x0b', '\x0c', '\x85', '\u200e', '\u200f', '\u2028', '\u2029', '\xa0', '\u00e9', '\u20ac']
+        c2s = [None, '=', '&', '|', '/', '!', '<', '>', 'a', '0', ' ', '"', '.', '*', '-', '+']
+        out = {}
+
+        def some_char(c):
+            return ('agg', 'core::option::Option', 'Some', (('int', ord(c), 'char'),))
+        for c1 in c1s:
+            for c2 in c2s:
+                state = {'bumps': 0}
+
+                def decide(name, argvals, t_, c1=c1, c2=c2, state=state):
+                    if name == TOK + 'bump':
+                        state['bumps'] += 1
+                        if state['bumps'] == 1:
+                            return some_char(c1)
+                        if state['bumps'] == 2:
+                            return some_char(c2) if c2 is not None else ('agg', 'core::option::Option', 'None', ())
+                        return None
+                    if name == TOK + 'peek':
+                        if state['bumps'] == 1:
+                            return some_char(c2) if c2 is not None else ('agg', 'core::option::Option', 'None', ())
+                        return None
+                    r = char_pred(name, argvals)
+                    if r is not None:
+                        return r
+                    if name in F.fns and name != LEXNEXT and not name.startswith(TOK):
+                        return eval_pure(F, name, argvals)
+                    return None
+                ps = AbsInt(F, fn, {}, decide_call=decide, max_paths=64).run()
+                res = set()
+                for p in ps:
+                    nb = sum(1 for c in p.calls if c[1] == TOK + 'bump')
+                    callees = tuple(c[1].split('::')[-1] for c in p.calls if c[1].startswith(TOK) or c[1] == LEXNEXT or c[1].startswith('<lexer::Token'))
+                    r = p.env.get('_0')
+                    tokn = '<?>'
+                    if p.exit == 'return' and r:
+                        if r[0] == 'call' and r[1] == LEXNEXT:
+                            tokn = '<skip>'
+                        elif r[0] in ('agg',) and r[2] == 'Some' and r[3]:
+                            tv = r[3][0]
+                            if tv[0] in ('enum', 'agg'):
+                                tokn = tv[2]
+                            elif tv[0] == 'call':
+                                tokn = '<call %s>' % tv[1].split('::')[-1]
+                        elif (r[0] == 'agg' and r[2] == 'None') or (r[0] == 'enum' and r[2] == 'None') or (r[0] == 'call' and 'from_residual' in r[1]):
+                            tokn = '<eof>'
+                    res.add((tokn, nb, callees))
+                out[(c1, c2)] = sorted(res)
+        return out
+    return _memo(ctx, 'lexer_outcomes', build)
+
+
+def lexer_table(ctx):
+    """lexeme -> token for the operator / punctuation lexemes, read from the constant-propagated MIR of Tokenizer::next
+    (lexer_outcomes); `arms` are the syntactic arms of the main match when the lexer still has that shape (else None)"""
+    def build():
+        o = lexer_outcomes(ctx)
+        table = {}
+        unit = set()
+        F = ctx.facts()
+        for v in F.adt(TOKEN)['variants']:
+            if not v['fields']:
+                unit.add(v['name'])
+        c1s = sorted({k[0] for k in o})
+        c2s = sorted({k[1] for k in o if k[1] is not None})
+        for c1 in c1s:
+            alone = o[(c1, None)]
+            t1 = alone[0][0] if len(alone) == 1 else None
+            if t1 in unit and t1 != 'Illegal' and alone[0][1] == 1:
+                table[c1] = t1
+            for c2 in c2s:
+                r = o[(c1, c2)]
+                if len(r) == 1 and r[0][0] in unit and r[0][0] not in ('Illegal',) and r[0][1] == 2 and r[0][0] != t1:
+                    table[c1 + c2] = r[0][0]
+        try:
+            syn = lexer_table_syn(ctx)
+            arms, nxt, extra = syn['arms'], syn['fn'], syn['extra_bump']
+        except CheckerError:
+            arms, extra = None, None
+            nxt = ctx.syn().method('src/lexer.rs', 'Tokenizer', 'next', trait='Iterator')
+        return {'table': table, 'arms': arms, 'extra_bump': extra, 'fn': nxt, 'outcomes': o, 'unit_tokens': unit}
     return _memo(ctx, 'lexer_table', build)
 
 
